@@ -177,7 +177,16 @@ def check(w):
                     want = fh.read()
             except OSError:
                 want = None
-            if want is None or body != want:
+            # RFC 3986 dot-segment removal and POSIX resolution differ when empty segments precede "..":
+            # "/a//../b.txt" is /a/b.txt for the former and /b.txt for the latter.  Both stay inside the
+            # root; either reading of "the file the path names" is accepted.
+            rootreal = os.path.realpath(f['_root'])
+            tgt = os.path.realpath(rootreal + raw)
+            alt = None
+            if os.path.commonpath([rootreal, tgt]) == rootreal and os.path.isfile(tgt):
+                with open(tgt, 'rb') as fh:
+                    alt = fh.read()
+            if (want is None or body != want) and (alt is None or body != alt):
                 out.append({'symptom': 'served_content_is_not_the_named_file', 'features': {},
                             'detail': dict(detail, normalised=norm, want=None if want is None else want[:40])})
     elif origin_form:
